@@ -815,7 +815,7 @@ func c19ConnRun(in c19Conn) (V, Verdict) {
 			if c.SendOnOpen && c.reliableOrdered() {
 				// everything was written before the receiver's side opened: it is
 				// queued there; a bounded wait keeps a loss from costing the whole deadline
-				gctx, gcancel := context.WithTimeout(ctx, 8*time.Second)
+				gctx, gcancel := context.WithTimeout(ctx, 15*time.Second)
 				r.recv.waitCount(gctx, len(r.accepted), 0)
 				gcancel()
 				return
